@@ -1,52 +1,57 @@
 ---- MODULE MC_ShardCoord ----
-(* Bounded query spaces for ShardCoord (exhaustive model checking + behaviour export).          *)
+(* Bounded query spaces for ShardCoord (exhaustive model checking + behaviour export).               *)
+(* The space is split into classes (initial states, a few thousand) whose members (<= 256 each) are   *)
+(* enumerated by the Eval action, so that TLC's workers share the work and nothing large is evaluated *)
+(* as a constant.                                                                                       *)
 EXTENDS ShardCoord, Json
 CONSTANTS Tier,      \* "quick" | "thorough"
-          Stride     \* export sampling of the big two-byte spaces: one record in Stride
+          Stride     \* export sampling of the two-byte spaces: one record in Stride
 
 Thorough == Tier = "thorough"
+Bytes == 0..255
 
-\* --- all shard counts 1..256 x all last bytes (the whole one-byte space)
-NSmall == 1..256
-Q1 == { [k |-> "compute", n |-> n, tpl |-> t, len |-> 32, suf |-> <<b>>] :
-            n \in NSmall, t \in (IF Thorough THEN {"user", "meta", "metb", "sc", "zero"} ELSE {"user", "meta"}), b \in 0..255 }
-
-\* --- shard counts needing 2 identifier bytes: all 65536 suffixes
-NBig2 == IF Thorough THEN {257, 300, 512, 1000, 4097, 32769, 65535, 65536} ELSE {257, 300, 65536}
-Q2 == { [k |-> "compute", n |-> n, tpl |-> t, len |-> 32, suf |-> <<b1, b2>>] :
-            n \in NBig2, t \in {"user"}, b1 \in 0..255, b2 \in 0..255 }
-Q2m == { [k |-> "compute", n |-> n, tpl |-> "meta", len |-> 32, suf |-> <<b1, b2>>] :
-            n \in {257, 65536}, b1 \in {0, 254, 255}, b2 \in 0..255 }
-
-\* --- 3 and 4 identifier bytes: high bytes sampled, low byte complete
+T1      == IF Thorough THEN {"user", "meta", "metb", "sc", "zero"} ELSE {"user"}
+NBig2   == IF Thorough THEN {257, 300, 512, 1000, 4097, 32769, 65535, 65536} ELSE {257, 65536}
 HiBytes == IF Thorough THEN {0, 1, 2, 3, 127, 128, 200, 254, 255} ELSE {0, 1, 128, 255}
-NBig3 == IF Thorough THEN {65537, 100000, 1048576, 16777215, 16777216} ELSE {65537, 16777216}
-Q3 == { [k |-> "compute", n |-> n, tpl |-> t, len |-> 32, suf |-> <<b1, b2, b3>>] :
-            n \in NBig3, t \in {"user", "meta"}, b1 \in HiBytes, b2 \in HiBytes, b3 \in 0..255 }
-NBig4 == IF Thorough THEN {16777217, 20000000, 536870913, 1073741824} ELSE {16777217, 1073741824}
-Q4 == { [k |-> "compute", n |-> n, tpl |-> t, len |-> 32, suf |-> <<b1, b2, b3, b4>>] :
-            n \in NBig4, t \in {"user", "meta"}, b1 \in HiBytes, b2 \in {0, 255}, b3 \in HiBytes, b4 \in 0..255 }
-
-\* --- edges of the metachain pattern and short addresses: every template x every length x pattern suffixes
-NEdge == {1, 2, 3, 5, 8, 255, 256, 257, 65536, 65537, 16777216, 16777217, 1073741824}
-LensEdge == IF Thorough THEN 0..40 ELSE {0, 1, 2, 3, 4, 10, 11, 24, 25, 26, 27, 28, 31, 32, 33, 40}
+NBig3   == IF Thorough THEN {65537, 100000, 1048576, 16777215, 16777216} ELSE {65537, 16777216}
+NBig4   == IF Thorough THEN {16777217, 20000000, 536870913, 1073741824} ELSE {16777217, 1073741824}
+NEdge   == {1, 2, 3, 5, 8, 255, 256, 257, 65536, 65537, 16777216, 16777217, 1073741824}
+LensEdge == IF Thorough THEN 0..40 ELSE {0, 1, 2, 3, 10, 11, 25, 26, 27, 32, 40}
 SufEdge == {<<>>, <<255>>, <<254>>, <<0>>, <<255, 255>>, <<254, 255>>, <<255, 0>>, <<255, 255, 255>>,
             <<0, 255, 255>>, <<255, 255, 255, 255>>, <<255, 255, 255, 254>>, <<1, 255, 255, 255>>}
-QE == { [k |-> "compute", n |-> n, tpl |-> t, len |-> len, suf |-> suf] :
-            n \in NEdge, t \in TplNames, len \in LensEdge, suf \in SufEdge }
-
-\* --- SameShard over pairs of addresses
 SameAddrs == { [tpl |-> t, len |-> len, suf |-> suf] :
-                 t \in {"user", "meta", "sc"}, len \in {1, 32},
-                 suf \in {<<0>>, <<1>>, <<2>>, <<3>>, <<255>>, <<1, 1>>, <<0, 1>>, <<255, 255>>} }
+                 t \in (IF Thorough THEN {"user", "meta", "sc"} ELSE {"user", "meta"}), len \in {1, 32},
+                 suf \in (IF Thorough THEN {<<0>>, <<1>>, <<2>>, <<3>>, <<255>>, <<1, 1>>, <<0, 1>>, <<255, 255>>}
+                          ELSE {<<0>>, <<1>>, <<3>>, <<255>>, <<1, 1>>, <<255, 255>>}) }
 SameNs == IF Thorough THEN {1, 2, 3, 4, 5, 7, 256, 257, 300} ELSE {1, 2, 3, 4, 257}
-QS == { [k |-> "same", n |-> n, a |-> a, b |-> b] : n \in SameNs, a \in SameAddrs, b \in SameAddrs }
-
-\* --- topic identifiers: full tables for shards 0..n-1 + META
 CommNs == IF Thorough THEN {1, 2, 3, 10, 12, 24, 64, 112} ELSE {1, 2, 3, 12, 24}
-QC == { [k |-> "comm", n |-> n] : n \in CommNs }
 
-MCQueries == Q1 \cup Q2 \cup Q2m \cup Q3 \cup Q4 \cup QE \cup QS \cup QC
+MCClasses ==
+    \* all shard counts 1..256 x all last bytes (the whole one-byte space)
+    { [fam |-> "b1", n |-> n, tpl |-> t, hi |-> <<>>] : n \in 1..256, t \in T1 }
+    \* shard counts needing 2 identifier bytes: all 65536 suffixes
+    \cup UNION { { [fam |-> "b2", n |-> n, tpl |-> "user", hi |-> <<b1>>] :
+                     b1 \in (IF Thorough THEN Bytes ELSE HiBytes \cup {2, 3, 64, 127, 129, 200, 254}) } : n \in NBig2 }
+    \cup { [fam |-> "b2", n |-> n, tpl |-> "meta", hi |-> <<b1>>] : n \in {257, 65536}, b1 \in {0, 254, 255} }
+    \* 3 and 4 identifier bytes: high bytes sampled, low byte complete
+    \cup { [fam |-> "b3", n |-> n, tpl |-> t, hi |-> <<b1, b2>>] :
+             n \in NBig3, t \in {"user", "meta"}, b1 \in HiBytes, b2 \in HiBytes }
+    \cup { [fam |-> "b4", n |-> n, tpl |-> t, hi |-> <<b1, b2, b3>>] :
+             n \in NBig4, t \in {"user", "meta"}, b1 \in HiBytes, b2 \in {0, 255}, b3 \in HiBytes }
+    \* edges of the metachain pattern and short addresses: every template x every length x pattern suffixes
+    \cup { [fam |-> "edge", n |-> n, tpl |-> t, len |-> len] : n \in NEdge, t \in TplNames, len \in LensEdge }
+    \* SameShard over pairs of addresses
+    \cup { [fam |-> "same", n |-> n, a |-> a] : n \in SameNs, a \in SameAddrs }
+    \* topic identifiers: full tables for shards 0..n-1 + META
+    \cup { [fam |-> "comm", n |-> n] : n \in CommNs }
+
+MCMembers(c) ==
+    CASE c.fam \in {"b1", "b2", "b3", "b4"} ->
+           { [k |-> "compute", n |-> c.n, tpl |-> c.tpl, len |-> 32, suf |-> Append(c.hi, b)] : b \in Bytes }
+      [] c.fam = "edge" ->
+           { [k |-> "compute", n |-> c.n, tpl |-> c.tpl, len |-> c.len, suf |-> s] : s \in SufEdge }
+      [] c.fam = "same" -> { [k |-> "same", n |-> c.n, a |-> c.a, b |-> b] : b \in SameAddrs }
+      [] c.fam = "comm" -> { [k |-> "comm", n |-> c.n] }
 
 LogAppend(h, r) == Append(h, r)
 LogLast(h, r) == <<r>>
@@ -56,7 +61,7 @@ Sampled(x) ==
     IF x.k = "compute" /\ Len(x.suf) = 2 /\ x.tpl = "user" /\ x.len = 32
     THEN (x.suf[1] * 256 + x.suf[2] + x.n) % Stride = 0
     ELSE TRUE
-EmitEdge == Sampled(q) => PrintT("@@B " \o ToJson(hist'))
-\* the templates, exported once so that the harness builds addresses from the specification's bytes
+EmitEdge == Sampled(q') => PrintT("@@B " \o ToJson(hist'))
+\* the templates, exported so that the harness builds addresses from the specification's bytes
 ASSUME PrintT("@@TPL " \o ToJson(Tpl))
 ====
